@@ -21,7 +21,7 @@ RULE = (
     "contents), (b) with each general rule violated at a random position, (c) with each plug-in rule "
     "violated (dbc/can_c: unknown struct; dbc: duplicate CAN id; can_c: 65..72 bit message), (d) with "
     "a synthetic always-rejecting check registered in each of the 8 verifier categories, before or "
-    "after the general checks.  Output directory states: absent, empty, unrelated files, files with "
+    "after the general checks, or as the first of two same-named checks.  Output directory states: absent, empty, unrelated files, files with "
     "the very names the generator writes (other text, a CRLF copy of the output, bytes that are not "
     "UTF-8, an identical copy), stale .c/.h files.  Monitors: return value must be Err; a "
     "sys.addaudithook event log of every write-open / remove / rename / mkdir / rmdir during the "
@@ -62,6 +62,9 @@ def base_tree(r):
                 d["items"].append(("field", "device", ("s", "ecu")))
             if "bus" not in S.impl_fields(d):
                 d["items"].append(("field", "bus", ("s", "can0")))
+            if r.random() < 0.4:
+                # a bus called "chassis/can1" puts its file one level below the output directory
+                d["items"] = [it for it in d["items"] if not (it[0] == "field" and it[1] == "bus")] + [("field", "bus", ("s", "chassis/can1"))]
             break
     a, b = structs[0]["name"], structs[-1]["name"]
     decls.append({"kind": "service", "name": "GSvc", "id": 1, "methods": [{"name": "Get", "id": 0, "input": a, "output": b}]})
@@ -95,6 +98,12 @@ def expected_files(gen_name, t, root):
             out[os.path.relpath(str(f["path"]), ref)] = str(f["contents"])
     shutil.rmtree(ref, ignore_errors=True)
     return out
+
+
+def c09_ok():
+    from fcp.result import Ok
+
+    return Ok(())
 
 
 def prepare_dir(root, state, names, contents=None):
@@ -175,7 +184,22 @@ def drive(run, gen_name, t, expect_reject, source, dir_state, root, probe=None, 
             called["n"] += 1
             return error("synthetic rejection in category %s" % cat)
 
-        verifier.register(reject, None if cat == "uncategorized" else cat)
+        if position == "pair":
+            # two different checks that happen to share their __name__ (closures of one helper): the
+            # first rejects, the second accepts - both are registered checks and both must run
+            def make(verdict):
+                def named_check(self, fcp_, node):
+                    if verdict is None:
+                        return c09_ok()
+                    called["n"] += 1
+                    return error(verdict)
+
+                return named_check
+
+            verifier.register(make("synthetic rejection (first of two same-named checks) in %s" % cat), None if cat == "uncategorized" else cat)
+            verifier.register(make(None), None if cat == "uncategorized" else cat)
+        else:
+            verifier.register(reject, None if cat == "uncategorized" else cat)
         if position == "first":
             lst = getattr(verifier, "checks", {}).get(cat)
             if isinstance(lst, list) and len(lst) > 1:
@@ -384,7 +408,7 @@ def run(run):
                 drive(run, g, inject_plugin(rr, t, "oversize"), True, "plugin/oversize", rr.choice(DIR_STATES), root, known_names=names)
             # (d) synthetic rejecting check in every category
             for cat in CATEGORIES:
-                for pos in ("last", "first"):
+                for pos in ("last", "first", "pair"):
                     drive(run, g, t, True, "synthetic/%s/%s" % (cat, pos), rr.choice(DIR_STATES), root, probe=(cat, pos), known_names=names)
         if run.shard == 0:
             cli_cases(run, root)
